@@ -431,7 +431,7 @@ func (exp *exporter) xhtmlFileOutputChange(title string) {
 	} else {
 		fmt.Fprint(exp.xhtmlNavigationText, "        <li>&lt;</li>\n")
 	}
-	index := html.EscapeString(ctx.Params["xhtml-go-up"])
+	index := ctx.Params["xhtml-go-up"] // rendered at assignment
 	if index == "" {
 		var ok bool
 		index, ok = indexTranslations[ctx.Params["lang"]]
